@@ -117,7 +117,9 @@
     pub open spec fn fields_are(fs: Seq<Field>, ms: Seq<Node>) -> bool { appended(Seq::empty(), fs, ms) }
 //# section: extension-spec
     pub open spec fn is_ext(n: Node) -> bool { is_elem(n) && tag(n) == "extension"@ }
-    pub open spec fn is_seq_elem(n: Node) -> bool { is_elem(n) && tag(n) == "sequence"@ }
+    // the own content model of an extension: a sequence or a choice
+    pub open spec fn is_content_tag(n: Node) -> bool { tag(n) == "sequence"@ || tag(n) == "choice"@ }
+    pub open spec fn is_seq_elem(n: Node) -> bool { is_elem(n) && is_content_tag(n) }
     // the extension child of a complexContent node: the first child that is an `extension` element
     pub open spec fn first_ext(n: Node, e: Node) -> bool {
         exists|i: int| 0 <= i < all_kids(n).len() && #[trigger] all_kids(n)[i] == e && is_ext(e)
@@ -132,7 +134,7 @@
         if k == 0 { Seq::empty() } else {
             let c = elem_kids(e)[k - 1];
             ext_own(e, (k - 1) as nat) + (
-                if tag(c) == "sequence"@ { members(e) }
+                if is_content_tag(c) { members(e) }
                 else if !has_seq(e) && tag(c) == "attribute"@ { seq![c] }
                 else { Seq::empty() })
         }
@@ -150,24 +152,24 @@
 
     // ---- C08, property level: on the extension shapes of the subset the loop's contribution IS the extension's declared members
     pub open spec fn seq_at(e: Node, s: int) -> bool {
-        0 <= s < elem_kids(e).len() && tag(elem_kids(e)[s]) == "sequence"@
-        && forall|j: int| 0 <= j < elem_kids(e).len() && j != s ==> tag(#[trigger] elem_kids(e)[j]) != "sequence"@
+        0 <= s < elem_kids(e).len() && is_content_tag(elem_kids(e)[s])
+        && forall|j: int| 0 <= j < elem_kids(e).len() && j != s ==> !is_content_tag(#[trigger] elem_kids(e)[j])
     }
     pub open spec fn only_attributes(e: Node) -> bool {
         forall|j: int| 0 <= j < elem_kids(e).len() ==> tag(#[trigger] elem_kids(e)[j]) == "attribute"@ || tag(elem_kids(e)[j]) == "attributeGroup"@
     }
     pub proof fn lemma_has_seq(e: Node)
-        ensures has_seq(e) <==> exists|j: int| 0 <= j < elem_kids(e).len() && tag(#[trigger] elem_kids(e)[j]) == "sequence"@
+        ensures has_seq(e) <==> exists|j: int| 0 <= j < elem_kids(e).len() && is_content_tag(#[trigger] elem_kids(e)[j])
     {
         broadcast use {crate::roxmltree::kid_lower, crate::roxmltree::elem_kid_is_kid, crate::roxmltree::kid_elem_is_elem_kid};
         if has_seq(e) {
             let i = choose|i: int| 0 <= i < all_kids(e).len() && is_seq_elem(#[trigger] all_kids(e)[i]);
             assert(elem_kids(e).contains(all_kids(e)[i]));
             let j = choose|j: int| 0 <= j < elem_kids(e).len() && elem_kids(e)[j] == all_kids(e)[i];
-            assert(tag(elem_kids(e)[j]) == "sequence"@);
+            assert(is_content_tag(elem_kids(e)[j]));
         }
-        if exists|j: int| 0 <= j < elem_kids(e).len() && tag(#[trigger] elem_kids(e)[j]) == "sequence"@ {
-            let j = choose|j: int| 0 <= j < elem_kids(e).len() && tag(#[trigger] elem_kids(e)[j]) == "sequence"@;
+        if exists|j: int| 0 <= j < elem_kids(e).len() && is_content_tag(#[trigger] elem_kids(e)[j]) {
+            let j = choose|j: int| 0 <= j < elem_kids(e).len() && is_content_tag(#[trigger] elem_kids(e)[j]);
             assert(all_kids(e).contains(elem_kids(e)[j]));
             let i = choose|i: int| 0 <= i < all_kids(e).len() && all_kids(e)[i] == elem_kids(e)[j];
             assert(is_elem(elem_kids(e)[j]));
@@ -179,12 +181,12 @@
         ensures ext_own(e, k) =~= (if k <= s { Seq::<Node>::empty() } else { members(e) })
         decreases k
     {
-        reveal_strlit("sequence"); reveal_strlit("attribute");
+        reveal_strlit("sequence"); reveal_strlit("attribute"); reveal_strlit("choice");
         lemma_has_seq(e);
         if k > 0 {
             lemma_ext_own_with_sequence(e, s, (k - 1) as nat);
             assert(has_seq(e));
-            if k - 1 != s { assert(tag(elem_kids(e)[k - 1]) != "sequence"@); }
+            if k - 1 != s { assert(!is_content_tag(elem_kids(e)[k - 1])); }
         }
     }
     pub proof fn lemma_ext_own_attributes_only(e: Node, k: nat)
@@ -200,11 +202,11 @@
             let c = elem_kids(e)[k - 1];
             assert(tag(c) == "attribute"@ || tag(c) == "attributeGroup"@);
             assert(!has_seq(e)) by {
-                if has_seq(e) { let j = choose|j: int| 0 <= j < elem_kids(e).len() && tag(#[trigger] elem_kids(e)[j]) == "sequence"@; assert(tag(elem_kids(e)[j]) == "attribute"@ || tag(elem_kids(e)[j]) == "attributeGroup"@); }
+                if has_seq(e) { let j = choose|j: int| 0 <= j < elem_kids(e).len() && is_content_tag(#[trigger] elem_kids(e)[j]); assert(tag(elem_kids(e)[j]) == "attribute"@ || tag(elem_kids(e)[j]) == "attributeGroup"@); }
             }
         }
     }
-    // the extension shapes of the subset: one sequence (with anything beside it), or attributes only
+    // the extension shapes of the subset: one sequence or choice (with anything beside it), or attributes only
     pub open spec fn ext_simple(e: Node) -> bool { (exists|s: int| seq_at(e, s)) || only_attributes(e) }
     pub proof fn lemma_ext_own_is_members(e: Node)
         requires ext_simple(e)
